@@ -961,8 +961,8 @@ def _analyze_zipfile_for_import(zipfile, project, schema):
             Parsed state point contents.
 
         """
-        # Must use forward slashes, not os.path.sep.
-        fn_statepoint = path + "/" + Job.FN_STATE_POINT
+        # Must use forward slashes, not os.path.sep. The archive root is "".
+        fn_statepoint = path + "/" + Job.FN_STATE_POINT if path else Job.FN_STATE_POINT
         if fn_statepoint in names:
             return json.loads(zipfile.read(fn_statepoint).decode())
 
@@ -1055,6 +1055,8 @@ def _tarfile_path_join(path, fn):
 
     """
     path = path.rstrip("/")
+    if not path:  # the archive root
+        return fn
     return path + "/" + fn
 
 
